@@ -674,16 +674,24 @@ class Executor:
             return self.binop(st, rv[1], self.operand(st, fr, rv[2]), self.operand(st, fr, rv[3]))
         if k == 'un':
             a = self.operand(st, fr, rv[2])
-            if rv[1] == 'Not':
+            if rv[1] == 'Not' and isinstance(a, S):
                 if a.w == 1:
                     return S(1, (1 - a.v) if a.conc() else z3.Not(a.v))
                 if not a.conc() and not z3.is_bv(a.v):
                     return S(a.w, mask(a.w) - a.v)
                 return S(a.w, (~a.v) & mask(a.w) if a.conc() else ~a.v)
-            if rv[1] == 'Neg':
+            if rv[1] == 'Neg' and isinstance(a, S):
                 if not a.conc() and not z3.is_bv(a.v):
                     return S(a.w, z3.If(a.v == 0, a.v, (1 << a.w) - a.v))
                 return S(a.w, (-a.v) & mask(a.w) if a.conc() else -a.v)
+            if rv[1] == 'PtrMetadata':
+                # length of the slice / array behind a (fat) reference
+                tgt = self.deref(st, a) if isinstance(a, Ref) else a
+                if isinstance(tgt, A):
+                    return S(64, len(tgt.f))
+                if isinstance(tgt, Native) and tgt.tag == 'vec':
+                    return S(64, len(tgt.p[0]))
+                raise Inconclusive('PtrMetadata of %r' % (tgt,))
             raise Inconclusive('unop ' + rv[1])
         if k == 'discr':
             v = self.read_place(st, fr, rv[1])
